@@ -228,6 +228,16 @@ def b_multipoint(ctx):
                         bad = f'column {col}: batch {list(sub[col])} vs alone {list(cs[col])}'
             if bad:
                 ctx.fail(f'C05:multi-point:{lawname}', f'{lawname}: point {node} (ratio {r}) of {seq} x {ratios}, node ids {nodes}: {bad}', {'sequence': seq, 'ratios': ratios, 'node': node, 'node_ids': nodes})
+            # "the visited strain values agree as well": the detector's strain value lists are those of the first listed point (added after seed C05-g took the strain
+            # of the LAST point at the turning points that set a new absolute maximum)
+            if node == 0:
+                for attr in ('strain_values', 'strain_values_first_run', 'strain_values_second_run'):
+                    a, b = np.asarray(getattr(det, attr), dtype=float).ravel(), np.asarray(getattr(dets, attr), dtype=float).ravel()
+                    sc_ = float(np.max(np.abs(b))) if len(b) else 0.0
+                    if len(a) != len(b) or not np.allclose(a, b, rtol=5e-4, atol=1e-12 + 1e-6 * sc_, equal_nan=True):
+                        ctx.fail(f'C05:multi-point:{attr}:{lawname}', f'{lawname}: {attr} of the batch {seq} x {ratios} (node ids {nodes}) = {a.tolist()}, the first point alone visits {b.tolist()}',
+                                 {'sequence': seq, 'ratios': ratios, 'node_ids': nodes})
+                        break
     ctx.sample({'sequence': [100, 0, 80, 20, 60, 40], 'ratios': (1.0, 2.0, 3.0)})
 
 
